@@ -17,20 +17,24 @@ structure Asg where
   var : Key → List Nat
 
 /-- evaluation of a symbolic axis under a total assignment -/
-def Expr.evalT (args : Args) (α : Key → Nat) : Expr → Res Int
+def Expr.evalTCore (args : Args) (α : Key → Nat) : Expr → Res Int
   | .lit n => .ok n
   | .var x => .ok (α (.plain x))
   | .hole x => match args.lookup x with
     | some (.int n) => .ok n
     | some (.raises e) => .exc e
     | none => .annErr
-  | .neg a => do let x ← a.evalT args α; pure (-x)
-  | .add a b => do let x ← a.evalT args α; let y ← b.evalT args α; pure (x + y)
-  | .sub a b => do let x ← a.evalT args α; let y ← b.evalT args α; pure (x - y)
-  | .mul a b => do let x ← a.evalT args α; let y ← b.evalT args α; pure (x * y)
+  | .neg a => do let x ← a.evalTCore args α; pure (-x)
+  | .add a b => do let x ← a.evalTCore args α; let y ← b.evalTCore args α; pure (x + y)
+  | .sub a b => do let x ← a.evalTCore args α; let y ← b.evalTCore args α; pure (x - y)
+  | .mul a b => do let x ← a.evalTCore args α; let y ← b.evalTCore args α; pure (x * y)
   | .fdiv a b => do
-      let x ← a.evalT args α; let y ← b.evalT args α
+      let x ← a.evalTCore args α; let y ← b.evalTCore args α
       if y = 0 then .exc .exception else pure (Int.fdiv x y)
+
+/-- two passes, as in the code: format every `{x}` first, then evaluate -/
+def Expr.evalT (args : Args) (α : Key → Nat) (e : Expr) : Res Int :=
+  gate (holesPass args e.holes) (e.evalTCore args α)
 
 /-- `s` can be broadcast *to* `v` (numpy rule, sizes may be 0) -/
 def BroadcastsTo (s v : List Nat) : Prop := bcast s v = some v
